@@ -164,6 +164,58 @@ pub fn run(rep: &mut Rep) {
         }
         add_counters(rep, &w);
     }
+    // identifiers across connections of the same Context: handshakes carried into a resumed session keep their
+    // identifiers, so whatever is started on the new connection must avoid them
+    rep.note("across connections: 1-4 QoS 1/2 publishes left unfinished, the connection ended by the user's DISCONNECT / end-of-stream / server DISCONNECT, the session resumed (hook H1) or the Context simply connected again; then publishes, subscribes and unsubscribes from two clones: identifiers on the new wire checked against the re-sent handshakes; counters also seeded near the wrap");
+    for unfinished in 1..=4usize {
+        for cause in 0..3u8 {
+            for (si, seedids) in [None, Some((65533u16, 5u32))].iter().enumerate() {
+                let id = format!("reconnect:{unfinished}:{cause}:{si}");
+                idx += 1;
+                if !rep.take(idx, &id) {
+                    continue;
+                }
+                let mut w = World::boot(WorldCfg { seed: rep.seed, sei: Some(3600), seed_ids: *seedids, ..Default::default() });
+                for j in 0..unfinished {
+                    let i = w.start(j % 2, if j % 2 == 0 { Kind::Pub1 } else { Kind::Pub2 });
+                    w.settle_check();
+                    if j == 3 {
+                        // one QoS 2 exchange already in its second phase
+                        w.deliver_ack(i, 1, 0, 0);
+                        w.settle_check();
+                    }
+                }
+                match cause {
+                    0 => super::script::apply(&mut w, super::script::Act::Term(super::script::TermAct::UserDisconnect)),
+                    1 => w.eof(),
+                    _ => w.server_disconnect(0x8b, 1, false),
+                }
+                w.settle_check();
+                let resumed = w.resume_full(ResumeOpts { secs_ago: 1, sei: Some(3600), ..Default::default() });
+                w.settle_check();
+                if resumed && !w.blind {
+                    for j in 0..6usize {
+                        w.start(j % 2, [Kind::Pub1, Kind::Sub, Kind::Unsub, Kind::Pub2, Kind::Pub1, Kind::Sub][j]);
+                        w.settle_check();
+                    }
+                    for _ in 0..12 {
+                        let Some(&(i, st)) = w.ackable().first() else { break };
+                        w.deliver_ack(i, st, 0, 0);
+                        w.settle_check();
+                    }
+                }
+                super::script::finish(&mut w);
+                rep.add("evaluations", 1);
+                rep.add("reconnection_cases", 1);
+                rep.distinct(&("reconnect", unfinished, cause, si));
+                if harvest(rep, &mut w, &id) == 0 {
+                    let ids: Vec<u16> = w.m.iter().filter_map(|m| m.pkt_id).collect();
+                    rep.sample(|| format!("{id}: identifiers over both connections {:?}", ids));
+                }
+                add_counters(rep, &w);
+            }
+        }
+    }
     // small Receive Maximum: publishes refused for quota (their identifier never reaches the wire) interleaved with
     // other identifier-consuming operations whose futures are polled late
     let wa = Alpha {
